@@ -25,7 +25,12 @@ fn gen(rng: &mut Rng, k: usize) -> (&'static str, String) {
     1 => ("", base_rule("r", &format!("  kind: number\n  nthChild: {}\n", ["\"99999999999n+1\"", "\"-n-2147483647\"", "\"2147483647n+2147483647\"", "\"n--1\"", "\"++n\"", "\"\"", "\"n n\"", "\"-2147483648n-2147483648\"", "\"1n+\"", "\"０n+１\""][rng.below(10)]))),
     2 => ("", base_rule("r", &format!("  kind: number\n  nthChild:\n    position: {}\n    reverse: {}\n    ofRule:\n      kind: {}\n", n(rng), ["true", "false", "1", "''"][rng.below(4)], ["number", "nope", "''", "1"][rng.below(4)]))),
     3 => ("", format!("{}transform:\n  C:\n    substring:\n      source: {}\n      startChar: {}\n      endChar: {}\nfix: $C\n", base_rule("r", "  pattern: foo($A, $B)\n"), st(rng), n(rng), n(rng))),
-    4 => ("", format!("{}transform:\n  C:\n    replace:\n      source: $A\n      replace: {}\n      by: {}\nfix: x$C\n", base_rule("r", "  pattern: foo($A, $B)\n"), st(rng), st(rng))),
+    4 => {
+      // fix templates with several sigils that start no variable (template literals, shell / PHP output), alone and
+      // between variables
+      let fixes = ["x$C", "console.log(`${first} ${last}`, $A)", "$a = $b", "$ $ $", "$$ $$ $C $$", "echo \"$1 $2\" $A $ $", "`${a}${b}${c}`", "$C$$C$$$C$$$$C$"];
+      ("", format!("{}transform:\n  C:\n    replace:\n      source: $A\n      replace: {}\n      by: {}\nfix: {}\n", base_rule("r", "  pattern: foo($A, $B)\n"), if (k / 22) % fixes.len() == 0 { st(rng) } else { "a".to_string() }, if (k / 22) % fixes.len() == 0 { st(rng) } else { "b".to_string() }, serde_json::to_string(fixes[(k / 22) % fixes.len()]).unwrap()))
+    }
     5 => {
       let sep = match rng.below(4) {
         0 | 1 => String::new(),
